@@ -5,6 +5,7 @@ M = [
  dict(id='V2-block-comment-accepted', file=F, old="if cur_token.kind() != SyntaxKind::LineComment {", new="if cur_token.kind() != SyntaxKind::LineComment && cur_token.kind() != SyntaxKind::BlockComment {", expect='C19'),
  dict(id='V3-whitespace-kind-not-checked', file=F, old="if cur_token.kind() != SyntaxKind::Whitespace || cur_token", new="if cur_token", expect='C19'),
  dict(id='V4-skips-first-line', file=F, old="    let mut comments = Vec::new();\n    loop {", new="    let mut comments = Vec::new();\n    cur_token = cur_token.prev_token()?;\n    loop {", expect='C19'),
+ dict(id='V6-doc-from-hovering-file', file=F, old="let parse = db.parse(define_loc.file);", new="let parse = db.parse(pos.file);", expect='C19'),
 ]
 BENIGN = [
  dict(id='V5-let-else', file=F, old="        cur_token = match cur_token.prev_token() {\n            Some(t) => t,\n            None => break,\n        };\n        if cur_token.kind() != SyntaxKind::LineComment", new="        let Some(t2) = cur_token.prev_token() else { break };\n        cur_token = t2;\n        if cur_token.kind() != SyntaxKind::LineComment"),
